@@ -226,6 +226,15 @@ impl IndentationVisitor {
         }
 
         let between = &self.src[left_end..expr_start];
+
+        // The only things between the left hand side and the
+        // expression are whitespace, `=` and comments. A `/` must be
+        // the start of a comment, whose text may contain `=`, so leave
+        // the spacing alone rather than editing inside the comment.
+        if between.contains('/') {
+            return;
+        }
+
         if let Some(eq_offset) = between.find('=') {
             let eq_abs = left_end + eq_offset;
 
@@ -260,6 +269,14 @@ impl IndentationVisitor {
             crate::parser::ast::LetDestination::Destructure(syms) => {
                 if let Some(last) = syms.last() {
                     let after_last = last.position.end_offset;
+
+                    // A comment before the closing parenthesis may
+                    // itself contain a `)`.
+                    let expr_start = expr.position.start_offset;
+                    if after_last > expr_start || self.src[after_last..expr_start].contains('/') {
+                        return;
+                    }
+
                     match self.src[after_last..].find(')') {
                         Some(offset) => after_last + offset + 1,
                         None => return,
